@@ -7,7 +7,7 @@ the reference statistic is computed from the recorded rewards of that arm whose 
 leaf: mean (EpsilonGreedy 0), mean + alpha sqrt(2 ln n / n) (UCB1), Beta(1+s, 1+f) checked by a 6-sigma
 moment test over repeated identical queries (Thompson); an arm without observations keeps 0.
 
-As built: Extras: refits, MiniBatchKMeans with more clusters than the rows can fill (cells without rows: reference = policy trained on the empty set), tree queries a hair (1e-9, 1e-12 relative) off the midpoints between stored values, randomised cluster policies checked with the row's own seed; a third of the non-linear Clusters histories carry a large common offset (1.7e9, 1e6) on every context.
+As built: Extras: refits, MiniBatchKMeans with more clusters than the rows can fill (cells without rows: reference = policy trained on the empty set), tree queries a hair (1e-9, 1e-12 relative) off the midpoints between stored values, randomised cluster policies checked with the row's own seed; a third of the non-linear Clusters histories carry a large common offset (1.7e9, 1e6) on every context. Clusters histories also carry late rows of removed arms (decisions name a label that is no current arm), decisions as pandas Series and a 'retire the arm with the longest label' sequence.
 """
 from mon import env  # noqa: F401
 import math
